@@ -346,6 +346,10 @@ def report(mod, tier, seed, total, meta, log=print):
         return 3
     for kid, (k, n) in sorted(knownhits.items()):
         print('KNOWN-FINDING: property=%s %s (%d cases)' % (pid, k['text'], n))
+    if os.path.isdir(rdir):          # replays of earlier runs are stale
+        for fn_ in os.listdir(rdir):
+            if fn_.endswith('.json'):
+                os.remove(os.path.join(rdir, fn_))
     if confirmed:
         os.makedirs(rdir, exist_ok=True)
     for fp, v in confirmed:
